@@ -582,3 +582,35 @@ def slice_with_captures(F, body, o, depth=40):
                             sl["calls"] += ps["calls"]
                             sl["aggs"] += ps["aggs"]
     return sl
+
+
+def capture_source(F, body, place):
+    """for a place rooted in a closure's environment (`_1`, field k): the creating function and the operand captured
+    as field k, followed transitively through nested closures.  Returns (body, place) of the outermost origin, or None."""
+    cur_b, cur_p = body, place
+    for _ in range(6):
+        rp = root_place(cur_b, cur_p)
+        if rp is None:
+            return None
+        if not (cur_b.kind == "Closure" and rp["l"] == 1):
+            return (cur_b, rp)
+        ks = [e for e in rp["p"] if re.match(r"^\.\d+:", e)]
+        if not ks:
+            return (cur_b, rp)
+        k = int(ks[0][1:].split(":", 1)[0])
+        parent = F.body(cur_b.path.rsplit("::{closure#", 1)[0])
+        if parent is None:
+            return (cur_b, rp)
+        found = None
+        for bl in parent.blocks:
+            for s in bl["s"]:
+                rv = s["rv"]
+                if rv["r"] == "agg" and rv["ak"] == "closure" and rv["adt"] == cur_b.path and k < len(rv["ops"]):
+                    found = rv["ops"][k]
+        if found is None:
+            return (cur_b, rp)
+        q = op_place(found)
+        if q is None:
+            return (parent, None)
+        cur_b, cur_p = parent, q
+    return None
